@@ -203,6 +203,14 @@ func (o *mapObj) exec(f []string, e *env) string {
 		v, loaded := m.LoadOrStoreWithFunc(atoi(f[1]), func(v int) int { cb = iv(v).String(); return v + d },
 			func() int { return parseVal(f[3]).id })
 		return fmt.Sprintf("a=%s/%v/cb=%s", iv(v), loaded, cb)
+	case "loswfn":
+		// the lazy store-if-absent: no onLoad callback (nil) - what an identity callback would have seen is the value returned
+		v, loaded := m.LoadOrStoreWithFunc(atoi(f[1]), nil, func() int { return parseVal(f[2]).id })
+		cb := "nil"
+		if loaded {
+			cb = iv(v).String()
+		}
+		return fmt.Sprintf("a=%s/%v/cb=%s", iv(v), loaded, cb)
 	case "rwf":
 		fn := replaceFn(f[2:])
 		cb := "nil"
